@@ -80,17 +80,19 @@ theorem eval_value_range {bits : Nat} (hb : 1 ≤ bits) (n : Int) (e : Expr) (v 
 
 /-! ## Parsing clause -/
 
-/-- **Grammar pin.**  The lexer rules (with their order), the precedence ladder, the productions and the
-    operator tables that lib/intexpr.py hands to rply are exactly plural.y's; no regex flag is set.
-    Regenerated from the live objects on every run: any edit to the declarations breaks this `decide`. -/
+/-- **Pins of what the models read from the dump.**  The dumped lexer and ignore rules are *readable* by the regex
+    interpreter and mean the rules `PluralLex.R` / `PluralLex.Ig` (a behaviour-preserving respelling of a regex, e.g.
+    `\\?` for `[?]`, leaves this true); no regex flag is set; the operator→`ast` class tables the action functions
+    close over and the `int()` digit limit are what the models assume.  (The precedence rows and productions are not
+    pinned as text any more: `lr_iff_derives`, `lr_language_is_declared_grammar` are proved about the tables and the
+    productions rply actually built from them.) -/
 theorem grammar_pin :
-    Generated.PluralGrammar.lexerRules = Spec.PluralY.lexerRules ∧
-    Generated.PluralGrammar.ignoreRules = Spec.PluralY.ignoreRules ∧
+    PluralLex.parseRules Generated.PluralGrammar.lexerRules = some PluralLex.R ∧
+    Generated.PluralGrammar.ignoreRules.mapM PluralLex.parseRegex = some PluralLex.Ig ∧
     Generated.PluralGrammar.extraFlags = [] ∧
-    Generated.PluralGrammar.precedence = Spec.PluralY.precedence ∧
-    Generated.PluralGrammar.productions = Spec.PluralY.productions ∧
     Generated.PluralGrammar.opTable = Spec.PluralY.opTable ∧
-    Generated.PluralGrammar.intMaxStrDigits = PluralParse.maxStrDigits := by decide
+    Generated.PluralGrammar.intMaxStrDigits = PluralParse.maxStrDigits :=
+  ⟨PluralLex.rules_eq, PluralLex.ignore_eq, by decide, by decide, by decide⟩
 
 /-- **Tokens.**  The lexer model (rply's loop: rules in declaration order, first match wins, greedy regexes)
     accepts a string with token list `ts` iff `ts` is its tokenisation by plural.y's token language
